@@ -202,7 +202,7 @@ def project(prop, b, ev, ctx):
                                                     if isinstance(x, fmt.Bid)))))
     elif prop == "C10":
         if k in ("EXEC", "PEXEC", "INST", "MIGRATE", "PMIGRATE"):
-            return (ok, tuple(shape(m) for m in b.msgs))
+            return (ok, tuple(sorted(repr(shape(m)) for m in b.msgs)))
     elif prop == "C11":
         if k in ("EXEC", "PEXEC"):
             return (ok, (book_lines(b), line_of(b, "CFG"), line_of(b, "VER")))
@@ -230,7 +230,7 @@ def project(prop, b, ev, ctx):
             return (None, (ok, tuple(b.qry) if b.qry else None, b.storage_changed))
     elif prop == "C17":
         if is_exec:
-            return (ok, tuple((a, v) for a, v in b.attrs if a in NAMED_ATTRS))
+            return (ok, tuple(sorted((a, v) for a, v in b.attrs if a in NAMED_ATTRS)))
     return None
 
 
@@ -275,21 +275,45 @@ class Oracle:
                 add(b.quote_denom, b.rem_quote + b.rem_fee)
         return o
 
-    def inexact(self, ev):
-        """K_inexact: an accepted match/create/reverse whose exact price*size is not an integer"""
+    def match_check(self, ev):
+        """conditions an accepted match must meet (C03); list of (class, message)"""
+        out = []
         try:
-            if ev.sub == "execute_match":
-                s = int(ev.args[3])
-                p = parse_dec(fmt.dec(ev.args[2]))
-                bid = self.bids.get(fmt.dec(ev.args[1]))
-                bp = parse_dec(bid.price) if isinstance(bid, fmt.Bid) else None
-                if p is not None and (p * s).denominator != 1:
-                    return True
-                if p is not None and bp is not None and p < bp and (bp * s).denominator != 1:
-                    return True
+            aid, bid_ = fmt.dec(ev.args[0]), fmt.dec(ev.args[1])
+            s = int(ev.args[3])
+            a, b = self.asks.get(aid), self.bids.get(bid_)
+            if a is None or not isinstance(b, fmt.Bid):
+                return [(None, "match accepted for an order that is not on the book")]
+            p, ap, bp = parse_dec(fmt.dec(ev.args[2])), parse_dec(a.price), parse_dec(b.price)
+            if self.cfg is not None and ev.sender not in self.cfg.executors:
+                out.append((None, "match by a non-executor"))
+            if ev.funds:
+                out.append((None, "match with funds attached"))
+            if a.quote != b.quote_denom:
+                out.append((None, "match across different quote denominations"))
+            if a.cls[0] == "pending":
+                out.append((None, "match of an ask pending approval"))
+            if not (1 <= s <= a.size and s <= b.rem_base):
+                out.append((None, "match size outside 1..remaining"))
+            if None not in (p, ap, bp):
+                if ap > bp:
+                    out.append((None, "match although ask price exceeds bid price"))
+                if p != ap and p != bp:
+                    out.append((None, "execution price is neither limit price"))
+
+                def frac(price_str, price):
+                    if (price * s).denominator == 1:
+                        return None
+                    digits = price_str.replace("_", "").lstrip("+-").replace(".", "")
+                    return "K_inexact" if int(digits or "0") * s >= 2 ** 96 else "plain"
+                for ps, pv in ((fmt.dec(ev.args[2]), p),) + (((b.price, bp),) if p < bp else ()):
+                    c = frac(ps, pv)
+                    if c:
+                        out.append(("K_inexact" if c == "K_inexact" else None,
+                                    "match accepted although price*size is not a whole number"))
         except Exception:
             pass
-        return False
+        return out
 
     def feed(self, b, ev):
         out = []
@@ -386,11 +410,12 @@ class Oracle:
                 out.append(("C05", None, why))
         if not b.ok and k in ("EXEC", "PEXEC") and (b.msgs or b.attrs):
             out.append(("C05", None, "refused request carries messages"))
-        # ---- known class: inexact product
-        if b.ok and k == "EXEC" and self.inexact(ev):
-            out.append(("C03", "K_inexact", "match accepted although price*size is not a whole number"))
-            if self.tainted is None:
-                self.tainted = "K_inexact"
+        # ---- C03: what an accepted match must satisfy (state before)
+        if b.ok and k in ("EXEC", "PEXEC") and ev.sub == "execute_match" and self.cfg is not None and not self.seeded:
+            for cls, msg in self.match_check(ev):
+                out.append(("C03", cls, msg))
+                if k == "EXEC" and self.tainted is None and "whole number" in msg:
+                    self.tainted = "K_inexact"
         clean = self.tainted is None and not self.migration and not self.seeded
         # ---- C06: exit probes
         if k == "PEXEC" and ev.sub in ("cancel_ask", "cancel_bid", "expire_ask", "expire_bid") and clean:
@@ -470,6 +495,66 @@ class Oracle:
                                 out.append(("C17", None, "fee attributes report %d for %s, it received %d" % (amt, acct, fl.get((acct, q), 0))))
                     except Exception:
                         pass
+        # ---- C02 / C04: who receives what (exact rationals; states reached without seeds or known-class steps)
+        if b.ok and k in ("EXEC", "PEXEC") and self.cfg is not None and clean:
+            fl = dict(flows(b, ev))
+            ai, bi = ev.ids()
+            try:
+                if ev.sub == "execute_match":
+                    a0, b0 = self.asks.get(ai[0]), self.bids.get(bi[0])
+                    s = int(ev.args[3])
+                    p, bp = parse_dec(fmt.dec(ev.args[2])), parse_dec(b0.price)
+                    q = b0.quote_denom
+                    seller = a0.cls[1] if a0.cls[0] == "ready" else a0.owner
+                    allowed = {SELF, b0.owner, seller} | ({self.cfg.ask_fee[0]} if self.cfg.ask_fee else set()) | \
+                        ({self.cfg.bid_fee[0]} if self.cfg.bid_fee else set())
+                    for (acct, d), v in fl.items():
+                        if acct not in allowed:
+                            out.append(("C02", None, "match pays %s, who is no party to it" % acct))
+                    roles = [b0.owner, seller] + ([self.cfg.ask_fee[0]] if self.cfg.ask_fee else []) + \
+                        ([self.cfg.bid_fee[0]] if self.cfg.bid_fee else [])
+                    distinct = len(set(roles)) == len(roles)
+                    if distinct and p is not None and bp is not None:
+                        gross = p * s
+                        if fl.get((b0.owner, self.cfg.base), 0) != s:
+                            out.append(("C02", None, "buyer received %d base for a fill of %d" % (fl.get((b0.owner, self.cfg.base), 0), s)))
+                        af = fl.get((self.cfg.ask_fee[0], q), 0) if self.cfg.ask_fee else 0
+                        if fl.get((seller, q), 0) + af != gross:
+                            out.append(("C02", None, "selling side + ask fee received %d, price*size is %s" % (fl.get((seller, q), 0) + af, gross)))
+                        if a0.cls[0] == "ready" and fl.get((seller, a0.base), 0) != s:
+                            out.append(("C02", None, "approver did not receive the converted denomination"))
+                        if p < bp and fl.get((b0.owner, q), 0) < (bp - p) * s:
+                            out.append(("C02", None, "price-improvement refund below (bid price - price)*size"))
+                elif ev.sub in REVERSE:
+                    side_ask = bool(ai)
+                    o = self.asks.get(ai[0]) if side_ask else self.bids.get(bi[0])
+                    after = (b.asks if side_ask else b.bids).get((ai or bi)[0])
+                    if isinstance(o, (fmt.Ask, fmt.Bid)):
+                        rem0 = o.size if side_ask else o.rem_base
+                        rem1 = 0 if after is None else (after.size if side_ask else after.rem_base)
+                        c = rem0 - rem1
+                        want = {}
+                        if side_ask:
+                            want[(o.owner, o.base)] = want.get((o.owner, o.base), 0) + c
+                            if o.cls[0] == "ready":
+                                want[(o.cls[1], self.cfg.base)] = want.get((o.cls[1], self.cfg.base), 0) + c
+                        got = dict((kk, v) for kk, v in fl.items() if kk[0] != SELF)
+                        if side_ask and got != dict((kk, v) for kk, v in want.items() if v):
+                            out.append(("C04", None, "ask reversal of %d paid %r" % (c, sorted(got.items()))))
+                        if not side_ask:
+                            pr = parse_dec(o.price)
+                            paid = got.get((o.owner, o.quote_denom), 0)
+                            fee_back = o.rem_fee - (after.rem_fee if after is not None else 0)
+                            if set(got) - {(o.owner, o.quote_denom)}:
+                                out.append(("C04", None, "bid reversal pays somebody other than the owner"))
+                            if pr is not None and paid != pr * c + fee_back:
+                                out.append(("C04", None, "bid reversal of %d returned %d, price*c + fee part is %s" % (c, paid, pr * c + fee_back)))
+                        if len(ev.args) > 1 and ev.args[1] != "-" and ev.sub.startswith("reject"):
+                            sz = int(ev.args[1])
+                            if not (1 <= sz <= rem0 and sz % self.cfg.increment == 0):
+                                out.append(("C04", None, "partial size %d accepted (increment %d, remaining %d)" % (sz, self.cfg.increment, rem0)))
+            except Exception:
+                pass
         # ---- C09 fee exactness (rates judged exactly; pro-rata to the nearest unit, lower unit only on a tie)
         if k == "EXEC" and self.cfg is not None and clean:
             if ev.sub == "create_bid" and b.ok:
@@ -495,6 +580,7 @@ class Oracle:
                 except Exception:
                     pass
             if b.ok:
+                attrib = {"execute_match": "C02", "cancel_bid": "C04", "expire_bid": "C04", "reject_bid": "C04"}.get(ev.sub)
                 for x in b.bids.values():
                     if isinstance(x, fmt.Bid) and x.fee and x.quote_amt:
                         exact = Fraction(x.fee[0] * x.rem_quote, x.quote_amt)
@@ -504,6 +590,8 @@ class Oracle:
                         if x.rem_fee != want and not (tie and x.rem_fee == q):
                             cls = "K_prorata" if 20 * x.quote_amt * x.fee[0] > 10 ** 28 else None
                             out.append(("C09", cls, "bid %s holds fee %d, pro-rata share is %d" % (x.key[:8], x.rem_fee, want)))
+                            if attrib and cls is None and x.key in (ev.ids()[1] or []):
+                                out.append((attrib, None, "after %s bid %s holds fee %d, pro-rata share is %d" % (ev.sub, x.key[:8], x.rem_fee, want)))
         # ---- C01 ledger (histories that start with an accepted instantiate, no seeds, clean)
         if k == "INST" and b.ok:
             self.started = True
